@@ -5,26 +5,42 @@ SRCS = ["expression.c", "lexer.c", "parser.c", "utils.c", "error.c", "fifo.c", "
 KIND = {1: "SCPI_ExprNumericListEntry", 2: "SCPI_ExprNumericListEntryInt", 3: "SCPI_ExprChannelListEntry"}
 
 
-def mk(kind, n, timeout=900, solver=None, imax=9, cap=None):
-    capdef = ["-DCAP=%d" % cap] if cap is not None else []
-    return Case("kind%d-n%d%s" % (kind, n, "-cap%d" % cap if cap is not None else ""), H, SRCS, defs=["-DKIND=%d" % kind, "-DN=%d" % n, "-DIMAX=%d" % imax] + capdef, unwind=max(n, imax + 1) + 3,
-                unwindset={"SCPI_RegSet.0": 4, "SCPI_ErrorPushEx.0": 10, "vm_scan.0": 2, "vm_scan.1": n + 1}, timeout=timeout, solver=solver,
+def mk(kind, n, timeout=900, solver=None, imax=9, cap=None, alph8=False):
+    capdef = (["-DCAP=%d" % cap] if cap is not None else []) + (["-DALPH8=1"] if alph8 else [])
+    return Case("kind%d-n%d%s%s" % (kind, n, "-cap%d" % cap if cap is not None else "", "-alph8" if alph8 else ""), H, SRCS, defs=["-DKIND=%d" % kind, "-DN=%d" % n, "-DIMAX=%d" % imax] + capdef, unwind=max(n, imax + 1) + 3,
+                unwindset={"SCPI_RegSet.0": 4, "SCPI_ErrorPushEx.0": 10, "vm_scan.0": 2, "vm_scan.1": n + 1,
+                           "SCPI_ExprChannelListEntry.0": imax + 2, "SCPI_ExprNumericListEntry.0": imax + 2, "channelSpec.0": n // 2 + 2}, timeout=timeout, solver=solver,
                 remove_bodies=["SCPI_ParamToInt32"] if kind in (2, 3) else [], link_stubs=["SCPI_ParamToInt32"] if kind in (2, 3) else [],
                 functions=[KIND[kind], "numericRange", "channelSpec", "channelRange", "scpiLex_DecimalNumericProgramData",
                            "scpiLex_Colon", "scpiLex_Comma", "scpiLex_SpecificCharacter", "SCPI_ParamToInt32"],
                 stubs=(["SCPI_ParamToInt32 replaced by a stub storing 1000 + start offset of the literal it was given (value conversion is C04/C07)"] if kind in (2, 3) else []),
-                bounds=dict(function=KIND[kind], body="every string of length 0..%d over {0 1 5 9 - + . : , ! @ SP TAB E e A}" % n,
+                bounds=dict(function=KIND[kind], body=("every string of length 0..%d over {1 2 ! : , @ - A}" % n) if alph8 else ("every string of length 0..%d over {0 1 5 9 - + . : , ! @ SP TAB E e A}" % n),
                             index="0..%d (symbolic)" % imax, capacity=("%d (exact-size arrays)" % cap) if cap is not None else "n/a"))
+
+
+def shaped(d1, d2, cap, timeout=900):
+    n = 1 + (2 * d1 - 1) + ((1 + 2 * d2 - 1) if d2 else 0) + 2
+    return Case("channel-shape-%dx%d-cap%d" % (d1, d2, cap), H, SRCS, defs=["-DKIND=4", "-DN=%d" % n, "-DIMAX=2", "-DCAP=%d" % cap, "-DSHAPE_D1=%d" % d1, "-DSHAPE_D2=%d" % d2],
+                unwind=n + 3, unwindset={"SCPI_RegSet.0": 4, "SCPI_ErrorPushEx.0": 10, "SCPI_ExprChannelListEntry.0": 3, "channelSpec.0": 5,
+                                         "skipNumbers.0": 3, "skipWs.0": 2}, timeout=timeout,
+                remove_bodies=["SCPI_ParamToInt32"], link_stubs=["SCPI_ParamToInt32"], mem_est=4,
+                
+                functions=[KIND[3], "channelSpec", "channelRange"],
+                stubs=["SCPI_ParamToInt32 replaced by a stub storing 1000 + start offset of the literal it was given"],
+                bounds=dict(function=KIND[3], body="@ + %d single-digit dimension(s)%s, optionally followed by ',' digit; digits symbolic" % (
+                    d1, (" : %d dimension(s)" % d2) if d2 else ""), index="0..2 (symbolic)", capacity="%d (exact-size arrays)" % cap))
 
 
 def cases(tier):
     if tier == "quick":
-        return [mk(1, 5, imax=4), mk(2, 5, imax=4)] + [mk(3, 4, imax=3, cap=c) for c in (0, 1, 2)]
-    return [mk(1, 8, 3000), mk(2, 7, 3000)] + [mk(3, 6, 6000, "cadical", imax=4, cap=c) for c in (0, 1, 2, 3, 4)]
+        sh = [shaped(d1, d2, 2) for d1 in (1, 2, 3) for d2 in (0, 1, 2, 3)]
+        return [mk(1, 6, imax=4), mk(2, 6, imax=4)] + [mk(3, 6, imax=2, cap=c) for c in (0, 1, 2)] + sh
+    sh = [shaped(d1, d2, cap, 3000) for d1 in (1, 2, 3) for d2 in (0, 1, 2, 3) for cap in (0, 1, 3)]
+    return sh + [mk(1, 8, 6000), mk(2, 8, 6000)] + [mk(3, 7, 9000, None, imax=4, cap=c) for c in (0, 1, 2, 3, 4)]
 
 
 META = dict(
-    bounds=dict(body_len="numeric lists 0..5 quick / 0..8 thorough; channel lists 0..4 quick / 0..6 thorough", index="0..4 quick, 0..9 thorough (numeric)", capacity="0..2 quick, 0..4 thorough"),
+    bounds=dict(body_len="numeric lists 0..6 quick / 0..8 thorough; channel lists 0..6 quick / 0..7 thorough, plus shaped channel entries of up to 3x3 dimensions with symbolic digits", index="0..4 (numeric), 0..2 (channel) quick; 0..9 / 0..4 thorough", capacity="0..2 quick, 0..4 thorough"),
     outside=["expression bodies longer than the bound", "double-valued variant SCPI_ExprNumericListEntryDouble (same walker; "
              "value conversion is libc strtod, see C04)", "integer values with more than the bounded digits"],
     assumptions=["the parameter is a PROGRAM_EXPRESSION token over a NUL-terminated buffer (as produced by the parameter reader)"],
